@@ -54,7 +54,7 @@ func init() {
 			add(qast.TreeUnits("tree|full|1|var", len(treeSet("full0")), 1), 1)
 			add(qast.TreeUnits("tree|c05x|1|var", len(treeSet("c05x0")), 1), 1)
 			add(qast.TreeUnits("tree|small6|2|var", len(treeSet("small1")), 8), 2)
-			add([]string{"args"}, 2)
+			add([]string{"args", "wide"}, 2)
 			if tier == "thorough" {
 				add(qast.TreeUnits("tree|three|3|min", len(treeSet("three2")), 120), 5)
 				add(qast.TreeUnits("tree|two|3|var", len(treeSet("two2")), 64), 4)
@@ -68,7 +68,7 @@ func init() {
 		Eval:   c05Eval,
 		Shrink: c05Shrink,
 		Rule: "TREE(L_full,2) printed minimally; TREE(L_full,1) ∪ TREE(L_small,2) also with one redundant pair of parentheses at each node in turn, fully parenthesised, and written compactly (no space next to a symbol token); " +
-			"TREE(L_4,2) with ^ and ~ carrying 11 numeric argument spellings; CHAIN(k) over every leaf; SPINE(m) over 2 leaves; thorough adds TREE(L_3,3) and variants on TREE(L_2,3). " +
+			"left-associative chains of 6..100 copies of every leaf; TREE(L_4,2) with ^ and ~ carrying 11 numeric argument spellings; CHAIN(k) over every leaf; SPINE(m) over 2 leaves; thorough adds TREE(L_3,3) and variants on TREE(L_2,3). " +
 			"non-trivial = Parse accepted the printed text; distinct = distinct accepted trees",
 		Assumptions: []string{
 			"the printer parenthesises wherever the documented table leaves a grouping open, so only groupings the table fixes are demanded",
@@ -152,6 +152,20 @@ func c05Run(w *core.Worker, tier, unit string) {
 		leaves, sub := treeUnitSets(unit)
 		mode, eu := stripTreeUnit(unit)
 		qast.EnumTreeUnit(eu, leaves, sub, func(t *qast.Node) { do(t, mode == "var") })
+	case unit == "wide":
+		// long flat chains: n operands of one kind joined by one binary operator without parentheses
+		// (left-associative), n beyond any small fixed limit a parser may carry
+		for _, l := range qast.LeavesFull() {
+			for _, op := range qast.BinaryOps {
+				for _, n := range []int{6, 11, 12, 33, 100} {
+					t := l
+					for i := 1; i < n; i++ {
+						t = qast.Bin(op, t, l)
+					}
+					do(t, false)
+				}
+			}
+		}
 	case unit == "args":
 		// the numeric argument of ^ and ~ in every spelling (several decimals, below 0.05, two
 		// digits, trailing zero), under and over the other unary operators
